@@ -22,6 +22,22 @@ CLAIMED = {
                             "an oracle on random real states, not proved."),
         technique="Lean 4 proof over traced definitions (field_simp/ring/linarith) + implementation oracle",
         design="5/C11"),
+    "C04": dict(
+        text=("For each of the 26 neighbour-type classes of interior and bypass subchannels (with and without the "
+              "low-flow approximation, both swirl-donor positions) a Lean theorem, over any ordered field and all "
+              "positive geometry/flow/property values, that `dz <=` the class's step limit makes the new temperature "
+              "an affine combination of the coupled previous-level temperatures with non-negative weights summing to "
+              "one plus a non-negative, temperature-independent heating term (corollaries: uniform field reproduced, "
+              "no undershoot, no new extremum).  Update and limit are both obtained by symbolically executing the "
+              "real setup/update/limit functions on real regions on every run.  Gap, low-fidelity and reactor-level "
+              "step selection are decided by linear probing of the real operators at the selected step."),
+        note=COMMON_NOTE + ("T1b symbolic execution (harness/bundle_trace.py) of _setup_ht_constants, "
+                            "_calc_coolant_int_temp, _calc_coolant_byp_temp, _calculate_int_dz/_byp_dz; all cells of a "
+                            "class must agree exactly with the class representative.  Partial: the gap and low-fidelity "
+                            "limits, the adiabatic variants and the whole-temperature-range clause are covered by the "
+                            "probing oracle only (tests, not theorems)."),
+        technique="Lean 4 proof over symbolically traced update + limit (per class) + linear probing oracle",
+        design="5/C04"),
 }
 
 REASONS_PENDING = "check not built yet in this session (work in progress, see DESIGN.md section 12)"
